@@ -3,7 +3,7 @@
    Subject: `encode` / `bparse` of Codec/Model.v (the schema-interpreting model of the generated Encode / Parse over a
    BufferReader) on the schemas of Codec/GenSchemas.v, which are re-translated from the source on every run.
    The last sentence of the property (generated code = generator output) is a finite direct decision made by the check. *)
-From Codec Require Import Schema Readers Model Spec GenSchemas SchemasWf LeafLemmas Roundtrip Theorems13 LengthExact DecodeThms Sim SimWr WireThms.
+From Codec Require Import Schema Readers Model Spec GenSchemas SchemasWf LeafLemmas Roundtrip Theorems13 LengthExact DecodeThms Sim SimWr WireThms WirePlan.
 Open Scope N_scope.
 
 (* the schemas the generator front end parses from the current definitions are well formed (79 models at pin time) *)
@@ -115,6 +115,23 @@ Theorem unknown_critical_rejected_wire : forall sc, schema_wf sc = true ->
   decode_wire sc mi false segs = Err E_CRITICAL.
 Proof. exact decode_wire_unknown_critical_rejected. Qed.
 Print Assumptions unknown_critical_rejected_wire.
+
+(* ---- the nocopy wire plan ----
+   Encode of a nocopy model returns several buffers: those the encoder allocates with the sizes Init planned (wirePlan) and
+   the caller's own buffers placed without copying (segments of wire fields, the signature slot).  `encode_wire` models
+   GenEncodeInto / `wire_plan` GenEncodingWirePlan for nocopy models incl. struct:T:nocopy members (Packet -> Interest/Data/
+   LpPacket); `inc` is the table of such members translated into GenSchemas.
+   The joined buffers are exactly `encode` of the value with its wire fields flattened: *)
+Theorem encode_wire_concat : forall fuel sc inc mi vs,
+  concat (map seg_bytes (encode_wire fuel sc inc mi vs)) = encode fuel sc mi (flat_fields fuel sc (flds (the_model sc mi)) vs).
+Proof. exact WirePlan.encode_wire_concat. Qed.
+Print Assumptions encode_wire_concat.
+
+(* and every planned size equals the number of bytes written into that buffer (slots are planned 0) *)
+Theorem wire_plan_exact : forall fuel sc inc mi vs,
+  wire_plan fuel sc inc mi vs = map seg_plan (encode_wire fuel sc inc mi vs).
+Proof. exact WirePlan.wire_plan_exact. Qed.
+Print Assumptions wire_plan_exact.
 
 (* the elements are the encoding *)
 Theorem elements_are_encoding : forall f sc mi vs, wf_value (S f) sc mi vs = true ->
